@@ -43,9 +43,9 @@ def sources(pid, tier, seed, rundir, mcres):
     if pid == "C01":
         out = [R("vamm", 600, 30, 1), R("engine", 80, 25, 2), R("liq", 60, 30, 3)]
     elif pid in ("C02", "C03", "C04", "C05", "C10", "C12"):
-        out = mix + [R("engine-native", 60, 25, 5), R("caps", 30, 25, 6)]
+        out = mix + [R("engine-native", 60, 25, 5), R("caps", 30, 25, 6)] + ([R("liqwin", 80, 25, 7)] if pid in ("C02", "C03") else [])
     elif pid == "C07":
-        out = [R("liq", 300, 30, 1), R("engine", 80, 25, 2), R("engine-realfeed", 40, 20, 3), R("fluct", 40, 25, 4), R("exactfund", 60, 25, 5)]
+        out = [R("liq", 300, 30, 1), R("engine", 80, 25, 2), R("engine-realfeed", 40, 20, 3), R("fluct", 40, 25, 4), R("exactfund", 60, 25, 5), R("liqwin", 150, 25, 6)]
         for name, scns in (("c14gates", gen.c14(tier, seed)),):
             path = os.path.join(rundir, name + ".scn.ndjson")
             with open(path, "w") as f:
@@ -53,7 +53,7 @@ def sources(pid, tier, seed, rundir, mcres):
                     f.write(json.dumps(s) + "\n")
             out.append(("file", path))
     elif pid in ("C06", "C16"):
-        out = [R("liq", 300, 30, 1), R("engine", 80, 25, 2), R("engine-realfeed", 40, 20, 3), R("fluct", 40, 25, 4), R("exactfund", 40, 25, 5)]
+        out = [R("liq", 300, 30, 1), R("engine", 80, 25, 2), R("engine-realfeed", 40, 20, 3), R("fluct", 40, 25, 4), R("exactfund", 40, 25, 5), R("liqwin", 100, 25, 6)]
     elif pid == "C08":
         out = [R("engine", 60, 20, 1), R("liq", 60, 25, 2)]
     elif pid == "C09":
